@@ -80,7 +80,7 @@ theorem rt_siblings (P : Params) (t : Tree) :
 
 -- non-vacuity: a sibling group of four under non-unit separations
 example : (layout oddP (nd [nd [lf, lf], lf, nd [lf, lf, lf], lf])).children.map FT.x
-    = [11/4, 17/4, 23/4, 25/4] := by
+    = [11/4, 31/8, 5, 49/8] := by
   decide +kernel
 
 /-- **non-negativity**: no `x` coordinate is negative (whatever the offsets). -/
